@@ -14,6 +14,9 @@ dense per-base model of models/intervals.py.  Sub-spaces (each with its own orac
   clip           intervals that stick out of the contig by up to 2 bases on either side: clip, Geometry.clip
   pair_disjoint  pairs of internally non-overlapping sets (DESIGN 4.3): count_overlap, intersect
   pair_multi     pairs of arbitrary multisets: unique_intersect, jaccard, forbes, Geometry.jaccard
+
+Within a case all operations receive the SAME operand objects (operand pool, see mk_interval): an operation that
+changes the set its operand denotes is reported, and would also corrupt the next operation's judged result.
 """
 import functools
 import itertools
@@ -43,6 +46,8 @@ ASSUMPTIONS = [
     'Geometry.sort is judged on (chromosome, start) only: its docstring does not promise the stop order',
     'contig sizes above the bound and more than 3 intervals per set are not explored (no sampling)',
     'result arrays are observed through to_array() and through starts/ends/values of the run-length array',
+    'operands are shared between the operations of one case; after every call each operand must still hold the multiset '
+    'of rows it was built from (a joint reordering of rows is not reported here: C20 compares exact snapshots)',
 ]
 EXPLANATION = ('every interval multiset up to the bound, in every input order, is pushed through the real sort-and-cumulate '
                'implementations and compared base by base with a dense coverage list')
@@ -52,7 +57,7 @@ MANIFEST_TEXT = ('Exhaustive enumeration of interval sets on one contig against 
                  'fragment length 1..S+1 (<= 2 intervals); clip; all ordered pairs of internally disjoint sets for '
                  'count_overlap/intersect (S<=5, S=6 in canonical order); all pairs of multisets for unique_intersect/'
                  'jaccard/forbes for S<=3, S=4 (of the 3x3 pairs a seed-rotated quarter), S=5 up to 3 intervals in total. '
-                 'thorough: everything at S<=6 with <= 3 intervals, all '
+                 'Within a case all operations run on the same operand objects, which must still denote the given sets after every call. thorough: everything at S<=6 with <= 3 intervals, all '
                  'multiset pairs for S<=5 and pairs with <= 4 intervals in total at S=6.')
 MANIFEST_NOTE = ('Trusted: NumPy, npstructures run-length arrays (observed via to_array and via starts/ends/values), CPython, '
                  'engine/observe.py, models/intervals.py (plain per-base Python).')
@@ -329,6 +334,39 @@ def _np():
     return np
 
 
+# Operand pool.  Within one case every operation receives THE SAME operand objects (a user computes several statistics
+# on the two tracks they hold), not a fresh copy per call: the pool hands out one object per distinct (constructor,
+# arguments) and, after every library call, re-reads each pooled operand.  An operand whose set of rows is no longer
+# the set it was built from is reported (as a multiset of rows: C08 does not forbid a joint reordering) and rebuilt,
+# so that the later operations of the case are still judged on the given set.
+_POOL = None
+
+
+def _pooled(maker):
+    @functools.wraps(maker)
+    def wrapper(*args):
+        if _POOL is None:
+            return maker(*args)
+        key = (maker.__name__, repr(args))
+        hit = _POOL.get(key)
+        if hit is None:
+            obj = maker(*args)
+            hit = _POOL[key] = (obj, operand_snapshot(obj))
+        return hit[0]
+    return wrapper
+
+
+def operand_snapshot(table):
+    rows = rows_of(table)
+    if not isinstance(rows, list):
+        return rows
+    if hasattr(table, 'strand'):
+        strands = [str(x) for x in observe.column(table.strand)]
+        rows = [r + (s,) for r, s in zip(rows, strands)] if len(strands) == len(rows) else ('strand-length', len(strands))
+    return sorted(rows) if isinstance(rows, list) else rows
+
+
+@_pooled
 def mk_interval(ivs, chroms=None):
     np = _np()
     from bionumpy.datatypes import Interval
@@ -337,6 +375,7 @@ def mk_interval(ivs, chroms=None):
     return Interval(chroms, np.array([a for a, b in ivs], dtype=int), np.array([b for a, b in ivs], dtype=int))
 
 
+@_pooled
 def mk_interval_encoded(rows, labels):
     np = _np()
     import bionumpy as bnp
@@ -349,6 +388,7 @@ def mk_interval_encoded(rows, labels):
     return Interval(chrom, np.array([a for c, a, b in rows], dtype=int), np.array([b for c, a, b in rows], dtype=int))
 
 
+@_pooled
 def mk_bed6(rows):
     np = _np()
     from bionumpy.datatypes import Bed6
@@ -428,9 +468,11 @@ class Ctx:
     """per-case bookkeeping: calls the library, turns exceptions into observations"""
 
     def __init__(self, res, case):
+        global _POOL
         self.res = res
         self.case = case
         self.obs = {}            # op -> observed value (for the evidence samples)
+        _POOL = None if case.get('zero') else {}
 
     def call(self, fn, op=None):
         """-> ('ok', value) | ('raises', exception)"""
@@ -442,6 +484,17 @@ class Ctx:
         except Exception as e:  # raised by bionumpy: an observation
             self.obs[op] = 'raises ' + exc_name(e)
             return 'raises', e
+        finally:
+            self.operands_intact(op)
+
+    def operands_intact(self, op):
+        if not _POOL:
+            return
+        for key, (obj, before) in list(_POOL.items()):
+            after = operand_snapshot(obj)
+            if after != before:
+                del _POOL[key]
+                self.fail('operand-still-the-given-set-after-call', {'op': op, 'operand': key[0]}, before, after)
 
     def fail(self, kind, feats, expected, observed, exc=None):
         self.res.fail(kind, self.case, feats, expected=expected, observed=observed,
@@ -707,7 +760,16 @@ def check_pair_multi(res, case):
     np = _np()
     io = (not M.internally_disjoint(a), not M.internally_disjoint(b))
     feats0 = {'empty': empties(a, b)}
-    from bionumpy.arithmetics import unique_intersect, jaccard, forbes
+    from bionumpy.arithmetics import unique_intersect, jaccard, forbes, count_overlap, intersect
+    # history prefix on the pooled operands: the two overlap functions, whose VALUE the statement defines only for
+    # internally disjoint sets (judged in pair_disjoint), are still called here first, on arbitrary multisets, so that
+    # the judged operations below run on operands that have already been through them
+    for op, fn in (('count_overlap', lambda: count_overlap(mk_interval(a), mk_interval(b))),
+                   ('intersect', lambda: intersect(mk_interval(a), mk_interval(b)))):
+        st, v = cx.call(fn, op + ' (value not judged)')
+        if st == 'raises':
+            res.extra['%s raises on internally overlapping / arbitrary multisets (not judged)' % op] += 1
+    cx.obs = {}
     exp_u = [(CHR, s, e) for s, e in M.unique_intersect(a, b, S)]
     feats = dict(feats0, op='unique_intersect',
                  internal_overlap='both' if all(io) else ('a' if io[0] else ('b' if io[1] else 'none')))
